@@ -5,7 +5,7 @@ import Mimium.Model.Publish
 /-! `drv_c05`: judge recorded VM state-access traces against the published dsp layout, and compare the layout the
 Lean model of mirgen (`Model/Publish.lean`) publishes for `dsp` with the skeleton of the real compiler.
 Input: `id \t status \t skeleton \t rec|rec|… [\t sexpr]` with rec = `trace@cursor@vmwords@wasmwords`, trace = `K:g:pos:size;…`.
-Output: `id \t ok <samples> <accesses>` or `id \t bad:<sample>:<reason>` or `id \t skip:<status>`, then (third field)
+Output: `id \t ok <samples> <accesses> mode=<strict|sel> skipped=<n>` or `id \t bad:<sample>:<reason>` or `id \t skip:<status>`, then (third field)
 `same|diff model=<skeleton>` + ` cells=<n> depth=<d> delays=<k> zero=<pruned children> cls=<0|1> clsz=<0|1> sites=<0|1>`, or `nomodel:<why>` -/
 open Mimium Mimium.Layout Mimium.StateTree Mimium.Core Mimium.FlatTree Mimium.Publish
 
@@ -54,39 +54,51 @@ def parseAccess (s : String) : Option (Bool × Access) :=
     some (g == "1", ⟨kind, ← p.toNat?, ← z.toNat?⟩)
   | _ => none
 
-def judgeRec (sk : Sk) (r : String) : Except String Nat :=
+/-- judge one dsp call.  `strict`: the program has no stateful construct inside an `if` arm (class `noStatefulInArms`), every
+cell is accessed in every call (`conforms`); otherwise a call touches the cells outside arms and those of the arms taken
+(`conformsSel`).  Returns (accesses judged, accesses of the layout not performed). -/
+def judgeRec (strict : Bool) (sk : Sk) (r : String) : Except String (Nat × Nat) :=
   match r.splitOn "@" with
   | tr :: cur :: _ =>
     let items := if tr == "." then [] else tr.splitOn ";"
     match items.mapM parseAccess, cur.toNat? with
     | some accs, some cursor =>
       let globals := (accs.filter (·.1)).map (·.2)
-      if conforms sk globals cursor then .ok globals.length
+      let ok := if strict then conforms sk globals cursor else conformsSel sk globals cursor
+      if ok then .ok (globals.length, (expectedTrace sk 0).length - globals.length)
       else if cursor != 0 then .error s!"cursor={cursor}"
-      else .error ((s!"trace-differs expected={repr (expectedTrace sk 0)} got={repr globals}").replace "\n" " ")
+      else .error ((s!"trace-differs({if strict then "strict" else "selected"}) expected={repr (expectedTrace sk 0)} got={repr globals}").replace "\n" " ")
     | _, _ => .error "unparsable-record"
   | _ => .error "unparsable-record"
 
-def c05Line4 (id status skel recs : String) : String :=
+def c05Line4 (strict : Bool) (id status skel recs : String) : String :=
     if status != "ok" then s!"{id}\tskip:{status}" else
     match parseSk skel with
     | none => s!"{id}\tbad:0:unparsable-skeleton"
     | some sk =>
       if !(WF sk) then s!"{id}\tbad:0:layout-not-wellformed {skel}" else
-      let rec go (rs : List String) (k : Nat) (n : Nat) : String :=
+      let mode := if strict then "strict" else "sel"
+      let rec go (rs : List String) (k : Nat) (n : Nat) (sk' : Nat) : String :=
         match rs with
-        | [] => s!"{id}\tok {k} {n}"
-        | r :: rs => match judgeRec sk r with
-          | .ok m => go rs (k + 1) (n + m)
+        | [] => s!"{id}\tok {k} {n} mode={mode} skipped={sk'}"
+        | r :: rs => match judgeRec strict sk r with
+          | .ok (m, z) => go rs (k + 1) (n + m) (sk' + z)
           | .error e => s!"{id}\tbad:{k}:{e}"
-      if recs == "-" || recs.isEmpty then s!"{id}\tok 0 0" else
-      go (recs.splitOn "|") 0 0
+      if recs == "-" || recs.isEmpty then s!"{id}\tok 0 0 mode={mode} skipped=0" else
+      go (recs.splitOn "|") 0 0 0
+
+/-- the strict judge applies when the program is known and has no stateful construct inside an `if` arm -/
+def strictFor (sx : String) : Bool :=
+  if sx == "-" || sx.isEmpty then false else
+  match parseProg sx with
+  | none => false
+  | some P => noStatefulInArms P P.dsp.body
 
 def c05Line (line : String) : String :=
   match line.splitOn "\t" with
-  | [id, status, skel, recs] => c05Line4 id status skel recs
+  | [id, status, skel, recs] => c05Line4 false id status skel recs
   | [id, status, skel, recs, sx] =>
-    c05Line4 id status skel recs ++ "\t" ++ (if skel == "-" then "nomodel:not-compiled" else pubLine skel sx)
+    c05Line4 (strictFor sx) id status skel recs ++ "\t" ++ (if skel == "-" then "nomodel:not-compiled" else pubLine skel sx)
   | _ => "?\tbad-line"
 
 partial def loop (h : IO.FS.Stream) (out : IO.FS.Stream) (f : String → String) : IO Unit := do
